@@ -482,7 +482,7 @@ class Backend:
 
 class HandleEnv:
     def __init__(self, ip, prog, backends, client_bytes, pool_over=None, client_over=None, settings_over=None, paused=False,
-                 pending_at=(), on_pending=None, boundaries=(), idle_timeout_ms=0, statement_timeout_ms=0, shutdown=False):
+                 pending_at=(), on_pending=None, boundaries=(), idle_timeout_ms=0, statement_timeout_ms=0, shutdown=False, checkout_failures=0):
         self.ip, self.prog = ip, prog
         if backends and isinstance(backends[0], (list, tuple)):
             shards = [list(x) for x in backends]
@@ -533,6 +533,7 @@ class HandleEnv:
         ip.env['frozen_clock'] = FROZEN      # no time passes: no health checks, no idle / ban expiry
         ip.env['no_timeouts'] = True         # the peers answer within every deadline
         self.idle_timeout_ms = idle_timeout_ms
+        self.checkout_failures = checkout_failures    # up to this many checkouts may time out (pool exhausted by other clients): solver's choice
         self.shutdown_mode = shutdown      # the shutdown broadcast may arrive at any point (solver's choice at every select!)
         self.shutdown_fired = False
         if idle_timeout_ms:
@@ -697,6 +698,11 @@ class HandleEnv:
                         # bb8 lends a connection to one borrower at a time (pool_size 1 here): a second checkout waits
                         env.events.append(('checkout_blocked', b.idx))
                         return EnumV(BV(64, 1), {}, 'Poll')
+                    if env.checkout_failures > 0 and ip_.choose(2, 'checkout_times_out') == 1:
+                        # bb8 contract: get() fails with RunError::TimedOut when no connection becomes free within connection_timeout
+                        env.checkout_failures -= 1
+                        env.events.append(('checkout_failed', b.idx, env.client_stream.pos))
+                        return EnumV(BV(64, 0), {'Ready': [EnumV(BV(64, 1), {'Err': [EnumV(BV(64, 1), {'TimedOut': []}, 'RunError')]}, 'Result')]}, 'Poll')
                     if b.needs_fresh:
                         b.renew(env)
                     b.checkouts += 1
